@@ -219,6 +219,7 @@ struct Scenario
 	bool keepalive = true;
 	int mtu = 1475;
 	std::int64_t lat_ns = 10000000; int bw = 0;
+	bool v6 = false;
 	Site site;
 	std::vector<std::unique_ptr<Client>> clients;
 	std::int64_t stop_at = -1; // handler-execution count at which stop() is called (-1: never)
@@ -311,7 +312,7 @@ Req gen_req(Rng& g, Site const& site, std::string const& tag, bool small, int fo
 	std::string conn = close ? std::string(g.pick(close_hdrs)) : (g.coin(1, 6) ? std::string("Connection: keep-alive\r\n") : std::string());
 	std::string extra;
 	if (g.coin(1, 3)) extra += "Host: 10.0.0.2:8080\r\n";
-	if (!small && g.coin(1, 8)) extra += "X-Pad: " + std::string(std::size_t(g.range(100, 1800)), 'p') + "\r\n";
+	if (!small && g.coin(1, 8)) extra += "X-Pad: " + std::string(std::size_t(g.coin(1, 6) ? g.range(3000, 20000) : g.range(100, 1800)), 'p') + "\r\n";
 	switch (k)
 	{
 		case K_HANDLER: return make_req(K_HANDLER, site, method, vary_target(g, g.coin() ? "/h1" : "/dir/h2"), tag, conn, close, extra);
@@ -419,7 +420,7 @@ std::unique_ptr<Client> gen_client(Rng& g, int id, Scenario const& sc, bool allo
 
 std::string describe(Scenario const& sc)
 {
-	std::string d = fmt("keepalive=%d mtu=%d lat=%" PRId64 "ns bw=%d pads=%d/%d fsize=%d", int(sc.keepalive), sc.mtu, sc.lat_ns, sc.bw
+	std::string d = fmt("%skeepalive=%d mtu=%d lat=%" PRId64 "ns bw=%d pads=%d/%d fsize=%d", sc.v6 ? "ipv6 " : "", int(sc.keepalive), sc.mtu, sc.lat_ns, sc.bw
 		, sc.site.pad1, sc.site.pad2, int(sc.site.fsize));
 	if (sc.stop_at >= 0) d += fmt(" stop@step%" PRId64, sc.stop_at);
 	for (auto const& cp : sc.clients)
@@ -455,7 +456,7 @@ struct World
 
 	void build()
 	{
-		A = addr("10.0.0.1"); B = addr("10.0.0.2");
+		A = addr(sc.v6 ? "2001:db8::1" : "10.0.0.1"); B = addr(sc.v6 ? "2001:db8::2" : "10.0.0.2");
 		net.probes = false; net.log = nullptr;
 		net.def_mtu = sc.mtu;
 		QSpec q; q.bw = sc.bw; q.lat_ns = sc.lat_ns; q.cap = 0;
@@ -773,7 +774,7 @@ struct World
 			// 2. the port is free
 			rebind.reset(new ip::tcp::acceptor(*srv_ios));
 			error_code ec;
-			API(rebind->open(ip::tcp::v4(), ec));
+			API(rebind->open(sc.v6 ? ip::tcp::v6() : ip::tcp::v4(), ec));
 			if (!ec) API(rebind->bind(ip::tcp::endpoint(B, PORT), ec));
 			if (!ec) API(rebind->listen(5, ec));
 			if (ec)
@@ -927,6 +928,7 @@ void run_case(Args const& a, std::uint64_t c)
 	sc.lat_ns = lats[g.choose(6)];
 	static int const bws[] = {0, 0, 100000, 1000000, 10000000};
 	sc.bw = bws[g.choose(5)];
+	sc.v6 = g.coin(1, 7);
 	if (sc.mtu < 100) { sc.site.pad1 = g.choose(40); sc.site.pad2 = g.choose(3) ? 0 : g.choose(120); sc.site.fsize = g.range(1, 160); }
 	else { sc.site.pad1 = g.choose(200); sc.site.pad2 = g.coin() ? g.choose(30) : int(g.range(500, 6000)); sc.site.fsize = g.coin() ? g.range(1, 300) : g.range(1000, 9000); }
 	int const nclients = 1 + g.choose(4);
